@@ -20,11 +20,13 @@ pub struct Params {
 pub fn params(prop: &str, tier: &str) -> Params {
     let thorough = common::tier_is_thorough(tier);
     let (q, t, qcap, tcap) = match prop {
-        "C01" => (3, 6, 40, 900),
+        "C01" => (4, 6, 40, 900),
         "C05" => (3, 5, 40, 900),
+        "C20" => (3, 4, 40, 1200),
+        "C06" => (3, 5, 40, 1200),
         "C07" => (4, 6, 40, 900),
-        "C08" => (4, 6, 40, 900),
-        "C09" => (4, 6, 40, 900),
+        "C08" => (3, 5, 40, 1200),
+        "C09" => (3, 5, 40, 1200),
         _ => (3, 5, 40, 900),
     };
     let prop_static: &'static str = Box::leak(prop.to_string().into_boxed_str());
@@ -45,6 +47,21 @@ pub fn config_for(prop: &str) -> Config {
         }
         "C07" => {
             c.auto_battery = false;
+        }
+        "C08" | "C09" => {
+            c.settle_lookahead = true;
+        }
+        "C01" => {
+            c.settle_lookahead = true;
+        }
+        "C06" => {
+            // zero context + two registered contexts with numerically adjacent ids
+            c.preseed = vec![Op::Register { ctx: Ctx::Zero, ttl: "".into() }, Op::ImportRegAdjacent { of: 0 }];
+        }
+        "C20" => {
+            c.auto_battery = false;
+            c.check_follower = false;
+            c.extra = Some(crate::c20::check_export_import);
         }
         _ => {}
     }
@@ -260,6 +277,49 @@ pub fn menu(prop: &str, tier: &str, depth: usize, e: &Exec) -> Vec<Op> {
             if reopen_ok {
                 out.push(Op::Reopen);
             }
+        }
+        "C06" => {
+            // the same topics in every context
+            let ctxs = vec![Ctx::Zero, Ctx::Reg(0), Ctx::Reg(1)];
+            for c in &ctxs {
+                out.push(app("a", c.clone(), ""));
+                if thorough || *c != Ctx::Zero {
+                    out.push(app("ab", c.clone(), ""));
+                }
+                if thorough || *c == Ctx::Reg(0) {
+                    out.push(app("a", c.clone(), "head:1"));
+                }
+            }
+            // ordinary frames only: the registrations stay
+            for (r, m) in e.live.values().enumerate() {
+                if m.frame.topic != "xs.context" {
+                    out.push(Op::Remove { rank: r });
+                }
+            }
+            if n > 2 {
+                out.push(Op::ImportAfter { rank: n - 1, topic: "a".into(), ctx: Ctx::Reg(1), ttl: "".into() });
+            }
+            gc_ops(e, false, &mut out);
+            if thorough && reopen_ok {
+                out.push(Op::Reopen);
+            }
+        }
+        "C20" => {
+            let mut ctxs = vec![Ctx::Zero];
+            ctxs.extend(regs.iter().cloned());
+            if e.ctxs.len() < if thorough { 2 } else { 1 } {
+                out.push(Op::Register { ctx: Ctx::Zero, ttl: "".into() });
+            }
+            for c in &ctxs {
+                out.push(app("a", c.clone(), ""));
+                out.push(Op::Append { topic: "a".into(), ctx: c.clone(), ttl: "".into(), meta: Some(json!({"m": [1, {"x": null}]})), body: Some("shared".into()) });
+                out.push(app("ab", c.clone(), &time_ttl()));
+                out.push(app("a", c.clone(), "head:2"));
+            }
+            for r in 0..n {
+                out.push(Op::Remove { rank: r });
+            }
+            gc_ops(e, false, &mut out);
         }
         _ => panic!("no E1 menu for {}", prop),
     }
